@@ -240,6 +240,14 @@ def answer_iff_request(ctx):
     from sa.lib import deep_calls
     sends = [site for c, o, site in deep_calls(m, run, lambda c: call_attr(c) == 'sendto') if any(a is loop for a in ancestors(site))]
     recv = [i for c in calls_in(loop) if call_attr(c) in RECV for i in cfg.node_of(c)]
+    # a table driven responder (`self._handlers = {'discover': self._answer}` + lookup by the value of the SECoP key): the
+    # answer is selected by a dictionary lookup, not by a comparison - the selection itself is not decided here
+    table = [d for fi in m.cls(UDP).methods.values() for d in body_walk(fi.node) if isinstance(d, ast.Dict)
+             and any(isinstance(k, ast.Constant) and k.value == 'discover' for k in d.keys)
+             and all(isinstance(v, ast.Attribute) and dotted(v.value) == 'self' for v in d.values)]
+    if table and not tests:
+        ctx.undecided(f'{run.qualname}:answer only to discover requests', table[0], "selected through a handler table keyed by 'discover'", run)
+        return
     if not sends:
         raise AnchorMissing('no sendto in the receive loop', violation='frappy.protocol.discovery.UDPListener.run:discover request is answered')
     if not tests:
@@ -385,11 +393,13 @@ def datagram_is_read_as_utf8_text(ctx):
     m = ctx.m
     f = m.method(UDP, 'run', inherited=False)
     ctx.analysed(f)
-    loads = [c for c in calls_in(f.node) if call_name(c) in ('json.loads', 'loads') and c.args]
-    if not loads:
+    from sa.lib import deep_calls
+    deep = deep_calls(m, f, lambda c: call_name(c) in ('json.loads', 'loads') and c.args)
+    if not deep:
         raise AnchorMissing('json.loads of the datagram not found in UDPListener.run', violation=f'{f.qualname}:request parsed as JSON')
-    for c in loads:
-        a = resolved(c.args[0], f.node)
+    for c, owner, site in deep:
+        ctx.analysed(owner)
+        a = resolved(c.args[0], owner.node)
         dec = [x for x in ast.walk(a) if isinstance(x, ast.Call) and (call_attr(x) == 'decode' or dotted(x.func) == 'str')]
         ok = False
         for x in dec:
@@ -401,6 +411,59 @@ def datagram_is_read_as_utf8_text(ctx):
         ctx.check(ok, f'{f.qualname}:datagram decoded as UTF-8 before parsing', c, '`json.loads(<bytes>.decode(\'utf-8\'))`',
                   f'`{src(c)}` hands the received bytes to the JSON parser without decoding them as UTF-8: json.loads detects UTF-16 / UTF-32 / a BOM by itself, '
                   'so a datagram that is not a UTF-8 discovery request is answered', f)
+
+
+@rule('C19.R1e', min_instances=1)
+def request_values_are_not_used_as_dictionary_keys_unchecked(ctx):
+    """what json.loads made of a datagram is untrusted: the value of its 'SECoP' key may be a list or an object.  Compared with
+    `== 'discover'` that is harmless; used as the KEY of a dictionary lookup (a table of handlers) it raises TypeError
+    (unhashable) outside every handler and ends the responder thread - unless a test established that it is a string"""
+    from sa.lib import deep_calls
+    m = ctx.m
+    run = _run(m)
+    units = [run] + [h for site, h in helper_methods_called(m, run)]
+    n = 0
+    for u in units:
+        loaded = {t.id for x in body_walk(u.node) if isinstance(x, ast.Assign) and isinstance(x.value, ast.Call) and call_name(x.value) in ('json.loads', 'loads')
+                  for t in x.targets if isinstance(t, ast.Name)}
+        if not loaded:
+            continue
+        n += 1
+        ctx.analysed(u)
+        # locals holding a value taken out of the request
+        vals = {t.id for x in body_walk(u.node) if isinstance(x, ast.Assign) and names_in(x.value) & loaded and
+                any(isinstance(y, (ast.Subscript, ast.Call)) for y in ast.walk(x.value)) for t in x.targets if isinstance(t, ast.Name)} - loaded
+        ucfg = CFG(u.node, m, u.module)
+        bad = []
+        for c in body_walk(u.node):
+            key = None
+            if isinstance(c, ast.Call) and call_attr(c) in ('get', 'pop', 'setdefault') and c.args and not (names_in(c.func.value) & loaded):
+                key = c.args[0]
+            if isinstance(c, ast.Subscript) and not (names_in(c.value) & loaded) and not isinstance(c.slice, (ast.Slice, ast.Constant)):
+                key = c.slice
+            if key is None or not (names_in(key) & (vals | loaded)) or isinstance(key, ast.Constant):
+                continue
+            if isinstance(key, ast.Name) and key.id in loaded:
+                continue
+            ks = src(key)
+            guarded = any(isinstance(a, ast.IfExp) and any(e == ks and isin and set(k) <= {'str'} for e, k, isin in isinstance_facts(a.test, positive=True))
+                          and any(c is y for y in ast.walk(a.body)) for a in ancestors(c))
+            st = next((a for a in ancestors(c) if isinstance(a, ast.stmt)), None)
+            side = sides_with_fact(ucfg, lambda a, tv: tv and isinstance(a, ast.Call) and dotted(a.func) == 'isinstance' and len(a.args) == 2
+                                   and src(a.args[0]) == ks and src(a.args[1]) == 'str')
+            if not guarded and not (st is not None and ucfg.ids(st) and set(ucfg.ids(st)) <= side):
+                contained = any(part == 'body' and any(handler_catches_all(h) or 'TypeError' in (handler_type_names(h) or []) for h in t.handlers)
+                                for t, part in enclosing_tries(c))
+                if not contained:
+                    bad.append((c, ks))
+        for c, ks in bad:
+            ctx.bad(f'{u.qualname}:request values are hashed only when they are strings', c, f'`{src(c)}` uses `{ks}`, a value taken from the received JSON text, as a dictionary key: '
+                    'a datagram like {"SECoP": ["discover"]} raises TypeError (unhashable type) outside every handler - the responder thread ends and no later '
+                    'discovery request is answered', u)
+        if not bad:
+            ctx.ok(f'{u.qualname}:request values are hashed only when they are strings', u.node, 'no unchecked request value is used as a dictionary key', u)
+    if not n:
+        raise AnchorMissing('json.loads of the datagram not found in the responder')
 
 
 @rule('C19.R2c', min_instances=1)
